@@ -210,16 +210,26 @@ def run(prog, chk):
             if not tn.startswith(cls + "<int"):
                 continue   # scalar key: comparisons are built-in operators, evaluable
             for f in [f for f in fs if (f.short == "find" and f.cls == tn) or (f.short == "insert" and C.placement_news(f))]:
+                cases_ = []
                 for s in q.stores(f):
                     if s.rhs is None:
                         continue
-                    t = q.no_casts(f.r(s.rhs))
+                    rn_ = f.nodes[f.strip(s.rhs)]
+                    if rn_["k"] == "ConditionalOperator" and len(rn_["c"]) == 3:
+                        # `cell = key < node->key ? &node->left : &node->right`: each arm under its side of the condition
+                        ck_ = fin.key(f, rn_["c"][0])
+                        cases_.append((s, rn_["c"][1], [(ck_, True)]))
+                        cases_.append((s, rn_["c"][2], [(ck_, False)]))
+                    else:
+                        cases_.append((s, s.rhs, []))
+                for s, rhs_, extra_ in cases_:
+                    t = q.no_casts(f.r(rhs_))
                     m = re.match(r"^&?(\w+)->(left|right)$", t)
                     if not m or q.no_casts(f.r(s.lhs)) not in ("item", "cell"):
                         continue
                     node, side = m.group(1), m.group(2)
                     atoms = fin.dominating_atoms(f, f.node_pos(s.node))
-                    facts = [(fin.key(f, a[0]), a[1]) for a in atoms if a[0] != "case"]
+                    facts = [(fin.key(f, a[0]), a[1]) for a in atoms if a[0] != "case"] + extra_
                     gt = ("(key > %s->key)" % node)
                     lt = ("(key < %s->key)" % node)
                     if side == "right":
